@@ -48,7 +48,10 @@ class Part:
 
 def delimiter_re(boundary: bytes):
     # independent statement of what counts as a delimiter line inside a body
-    return re.compile(rb"(?:\r\n|\r|\n)--" + re.escape(boundary) + rb"(?:--|[ \t]*(?:\r\n|\r|\n))")
+    # transport padding behind the boundary: RFC 2046 allows SP / HTAB; a body line made of the dash-boundary plus
+    # VT / FF only is so close to a delimiter that no encoder would keep that boundary - such bodies are outside the
+    # well-formed domain (the decoder reads them as delimiters, whatever the chunking)
+    return re.compile(rb"(?:\r\n|\r|\n)--" + re.escape(boundary) + rb"(?:--|[ \t\x0b\x0c]*(?:\r\n|\r|\n))")
 
 
 def build(parts, boundary: bytes, nl: bytes = b"\r\n", preamble: bytes = b"", epilogue: bytes = b"", final_nl=True):
@@ -103,7 +106,7 @@ def build(parts, boundary: bytes, nl: bytes = b"\r\n", preamble: bytes = b"", ep
     if found != intended:
         return None
     # a preamble that itself begins with a delimiter line (no line break needed at offset 0) is not a preamble
-    if preamble and re.match(rb"--" + re.escape(boundary) + rb"(?:--|[ \t]*(?:\r\n|\r|\n))", body):
+    if preamble and re.match(rb"--" + re.escape(boundary) + rb"(?:--|[ \t\x0b\x0c]*(?:\r\n|\r|\n))", body):
         return None
     if not parts and not preamble:
         pass
